@@ -484,9 +484,15 @@ func ResolveExternalLocation(
 		// Check for redirect loops
 		_, hasLocation := metaGet(recMeta, MetaLocation)
 		if hasLocation && rec.NumRows() == 0 {
+			if resolvedBatch != nil {
+				resolvedBatch.Release()
+			}
 			return batch, meta, fmt.Errorf("external location redirect loop detected")
 		}
 		rec.Retain()
+		if resolvedBatch != nil {
+			resolvedBatch.Release()
+		}
 		resolvedBatch = rec
 	}
 
@@ -582,10 +588,11 @@ func redactExternalURL(rawURL string) string {
 	return u.String()
 }
 
-// batchMetadata extracts custom metadata from a record batch.
+// batchMetadata extracts the batch-level custom metadata of a record batch
+// (where vgi_rpc.log_level / vgi_rpc.location live), not the schema's.
 func batchMetadata(rec arrow.RecordBatch) arrow.Metadata {
-	if rec.Schema().HasMetadata() {
-		return rec.Schema().Metadata()
+	if bwm, ok := rec.(arrow.RecordBatchWithMetadata); ok {
+		return bwm.Metadata()
 	}
 	return arrow.Metadata{}
 }
